@@ -28,7 +28,7 @@ ASSUMPTIONS = ['the model of the final result: a value returned on the endpoint 
                'BaseException subclasses that are not Exceptions are outside the property']
 
 ACCEPTS = [None, 'text/html', 'application/json', 'application/xml;q=0.9, */*;q=0.1']
-HANDLERS = ['default', 'debug', 'reraise', 'broken_render', 'other_error']
+HANDLERS = ['default', 'debug', 'reraise', 'broken_render', 'other_error', 'broken_render_cls']
 
 
 def deadline_passed():
@@ -191,9 +191,28 @@ class App(object):
                 def render_error(self, request, _error):
                     return errors.Forbidden('instead of %s' % _error.code)
             kw['error_handler'] = Other()
-        self.app = Application([Route('/r', ep_ctx, rn), Route('/n', ep_resp), GET('/item', ep_resp),
-                                POST('/item', lambda: Response('posted'))],
-                               middlewares=[mk(0), mk(1), mk(2)], **kw)
+        AppType = Application
+        if handler == 'broken_render_cls':
+            # the failing handler is configured through the documented subclass attribute
+            class BrokenCls(errors.ErrorHandler):
+                def render_error(self, request, _error):
+                    raise RuntimeError('render_error is broken')
+
+            class AppType(Application):
+                default_error_handler_type = BrokenCls
+
+        def ep_num(**kw):
+            return Response('num')
+
+        def ep_nums(nums):
+            return Response('nums %r' % (nums,))
+
+        def ep_n(n):
+            return Response('n %r' % (n,))
+        self.app = AppType([Route('/r', ep_ctx, rn), Route('/n', ep_resp), GET('/item', ep_resp),
+                            POST('/item', lambda: Response('posted')), Route('/sum/<nums+int>', ep_nums),
+                            Route('/num/<n:int>', ep_n), Route('/flt/<n?float>/x', ep_n)],
+                           middlewares=[mk(0), mk(1), mk(2)], **kw)
 
     def act(self, where):
         ctl = self.ctl
@@ -412,16 +431,21 @@ def shard(tier, i, n, seed):
             continue
         A = apps.get(handler) or App(handler)
         for accept in ACCEPTS:
-            for m, p, want in (('GET', '/nope', 404), ('PUT', '/item', 405), ('GET', '/nope/<b>', 404)):
+            for m, p, want in (('GET', '/nope', 404), ('PUT', '/item', 405), ('GET', '/nope/<b>', 404),
+                               ('GET', '/sum/1//2', (200, 404)), ('GET', '/sum/1/x', 404), ('GET', '/num/' + '9' * 5000, (200, 404)),
+                               ('GET', '/num/+ 1', 404), ('GET', '/flt/1e400/x', (200, 404)), ('GET', '/flt//x', (200, 404)),
+                               ('GET', '/num/\u0661', (200, 404))):
                 A.ctl.beh = None
                 res = wsgi.call(A.app, p, m, headers={'Accept': accept} if accept else None)
                 acc.evaluated += 1
                 acc.transitions += 1
                 acc.validated += 1
-                acc.outcome('builtin-%d|%s' % (want, handler))
-                want_codes = (want, 403) if handler == 'other_error' else (want,)
+                if isinstance(want, int):
+                    want = (want,)
+                acc.outcome('builtin-%s|%s' % (want[0], handler))
+                want_codes = want + (403,) if handler == 'other_error' else want
                 if res.raised is not None or res.code not in want_codes or res.sr_calls != 1:
-                    acc.violation('C08:builtin-%d:%s' % (want, handler), '%s %s under handler %s gave %r raised=%r'
+                    acc.violation('C08:builtin-%s:%s' % (want[0], handler), '%s %s under handler %s gave %r raised=%r'
                                   % (m, p, handler, res.status, res.raised), {'handler': handler, 'path': p, 'method': m})
     depth = 3 if tier == 'quick' else 4
     for hk, handler in enumerate(('default', 'debug', 'broken_render')):
